@@ -68,7 +68,14 @@ fn random_valid_tokens(rng: &mut Rng) -> Vec<(K, String)> {
 /// variants, terminals, path segments, type arguments, attributes).
 fn sized_valid_file(rng: &mut Rng) -> String {
     let n = *rng.pick(&[9usize, 10, 11, 15, 16, 17, 31, 32, 33, 63, 64, 65, 99, 100, 101, 127, 128, 129, 255, 256, 257]);
-    match rng.below(7) {
+    match rng.below(10) {
+        7..=9 => {
+            // type nesting depth on a threshold, the nested type in any argument position
+            // (the deepest parse stacks a Kiki file can produce)
+            let d = *rng.pick(&[3usize, 9, 17, 33, 64, 65, 100, 127, 128, 129, 130, 131, 132, 160, 200, 255, 256, 257, 300]);
+            let t = crate::model::deep_type(rng, d);
+            format!("start S\nstruct S($A)\nterminal Tok {{ $B: u8 $A: {} $C: () }}\n", t.text())
+        }
         0 => {
             let mut s = String::from("start S0\nterminal Tok { $A: () }\n");
             for i in 0..n.saturating_sub(2) {
@@ -86,7 +93,7 @@ fn sized_valid_file(rng: &mut Rng) -> String {
 }
 
 fn some_valid_tokens(rng: &mut Rng) -> Vec<(K, String)> {
-    if rng.below(25) == 0 {
+    if rng.below(20) == 0 {
         if let Some(t) = gtext::tokens_of(&sized_valid_file(rng)) {
             return t;
         }
